@@ -181,6 +181,14 @@ def fam_argv(seed, big):
                     sc["setgid"] = g
                 out.append(sc)
                 i += 1
+    # names and values that are not valid UTF-8 (legal on Unix) reach the child byte for byte
+    for env in ([[hx(b"N\xff"), hx(b"v\xfe\xff caf\xe9")], [hx("PLAIN"), hx(b"\xe9")]], [[hx(b"\xe9"), hx(b"")], [hx("K"), hx(b"a\xffb")]]):
+        for clone in (False, True):
+            sc = {"id": "a-envbytes%d" % i, "class": "argv-env-bytes", "argv": vargv("x"), "env": env}
+            if clone:
+                sc["clone_cfg"] = True
+            out.append(sc)
+            i += 1
     # a working directory only the parent may enter (0700, owned by root) together with an unprivileged identity: the
     # directory is entered before the identity is given up
     if ids_ok:
